@@ -1149,7 +1149,7 @@ def rt2(ctx):
     """the renderer ranks candidate base phones with a *stable* sort: equal distances keep the (sorted) table order, so
     the spelling chosen among ties is the one the parser's left-to-right reading was tuned against"""
     from facts import callee_path
-    r = RuleResult("RT-2", "the renderer's candidate ranking is a stable sort over the sorted cardinal table (ties keep table order)", floor=3)
+    r = RuleResult("RT-2", "the renderer's candidate ranking is a stable sort over the sorted cardinal table (ties keep table order)", floor=2)
     lib = ctx.lib
     n = 0
     roots = ("asca::seg::Segment::get_as_grapheme", "asca::seg::Segment::get_nearest_grapheme")
